@@ -27,6 +27,9 @@ REPO = os.environ.get("EUDOXIA_REPO", "/repo")
 NPROC = int(os.environ.get("VERIF_JOBS", str(min(16, os.cpu_count() or 4))))
 
 
+_NOKEY = object()
+
+
 def load_known(pid):
     path = os.path.join(VERIF, "known_findings.json")
     if not os.path.exists(path):
@@ -70,7 +73,10 @@ def finding_applies(f, ob):
     if f.get("harness") != ob.harness:
         return False
     for k, v in (f.get("partition") or {}).items():
-        if ob.fixed.get(k, v) != v:
+        cur = ob.fixed
+        for part in k.split("."):            # "cfg.algo" looks inside the scenario configuration
+            cur = cur.get(part, _NOKEY) if isinstance(cur, dict) else _NOKEY
+        if cur is _NOKEY or cur != v:
             return False
     return True
 
@@ -234,6 +240,8 @@ def main(argv):
         n_oblig += 1
         if st == "confirmed":
             discharged += 1
+            if ob.name in known_prefixes:
+                known_hits.append(f"{ob.name}: confirmed modulo known finding {known_prefixes[ob.name]} (paths that reach it end there)")
         elif st == "counterexample":
             args = dict(r.get("args") or {})
             rs = {"property": pid, "kind": "ch", "harness": ob.harness,
